@@ -60,27 +60,32 @@ Definition sdiv a b := if is0 a then Cst 0 else Div a b.
 Definition site a b x y := if is0 x && is0 y then Cst 0 else Ite a b x y.
 Definition cnat (n : nat) : expr := Cst (inject_Z (Z.of_nat n)).
 
-Fixpoint D (x : nat) (e : expr) : expr :=
+(* derivative along a curve of environments: dv i is the expression of the derivative of variable i *)
+Fixpoint Dg (dv : nat -> expr) (e : expr) : expr :=
   match e with
-  | Var i => if Nat.eqb i x then Cst 1 else Cst 0
+  | Var i => dv i
   | Cst _ | CPi => Cst 0
-  | Add a b => sadd (D x a) (D x b)
-  | Sub a b => ssub (D x a) (D x b)
-  | Mul a b => sadd (smul (D x a) b) (smul a (D x b))
-  | Div a b => ssub (sdiv (D x a) b) (smul (Div a (Mul b b)) (D x b))
-  | Neg a => sneg (D x a)
-  | Pow a n => match n with O => Cst 0 | S k => smul (smul (cnat (S k)) (Pow a k)) (D x a) end
-  | Sqrt a => sdiv (D x a) (Mul (Cst 2) (Sqrt a))
-  | Sin a => smul (Cos a) (D x a)
-  | Cos a => smul (Neg (Sin a)) (D x a)
-  | Exp a => smul (Exp a) (D x a)
-  | Ln a => sdiv (D x a) a
-  | Atan2 y0 x0 => sdiv (ssub (smul x0 (D x y0)) (smul y0 (D x x0))) (Add (Mul x0 x0) (Mul y0 y0))
-  | Rpw a c => smul (smul (Cst c) (Rpw a (c - 1))) (D x a)
-  | Abs a => site (Cst 0) a (D x a) (sneg (D x a))
+  | Add a b => sadd (Dg dv a) (Dg dv b)
+  | Sub a b => ssub (Dg dv a) (Dg dv b)
+  | Mul a b => sadd (smul (Dg dv a) b) (smul a (Dg dv b))
+  | Div a b => ssub (sdiv (Dg dv a) b) (smul (Div a (Mul b b)) (Dg dv b))
+  | Neg a => sneg (Dg dv a)
+  | Pow a n => match n with O => Cst 0 | S k => smul (smul (cnat (S k)) (Pow a k)) (Dg dv a) end
+  | Sqrt a => sdiv (Dg dv a) (Mul (Cst 2) (Sqrt a))
+  | Sin a => smul (Cos a) (Dg dv a)
+  | Cos a => smul (Neg (Sin a)) (Dg dv a)
+  | Exp a => smul (Exp a) (Dg dv a)
+  | Ln a => sdiv (Dg dv a) a
+  | Atan2 y0 x0 => sdiv (ssub (smul x0 (Dg dv y0)) (smul y0 (Dg dv x0))) (Add (Mul x0 x0) (Mul y0 y0))
+  | Rpw a c => smul (smul (Cst c) (Rpw a (c - 1))) (Dg dv a)
+  | Abs a => site (Cst 0) a (Dg dv a) (sneg (Dg dv a))
   | Floor _ => Cst 0
-  | Ite a b u v => site a b (D x u) (D x v)
+  | Ite a b u v => site a b (Dg dv u) (Dg dv v)
   end.
+
+(* partial derivative with respect to variable x *)
+Definition dx (x : nat) (i : nat) : expr := if Nat.eqb i x then Cst 1 else Cst 0.
+Definition D (x : nat) (e : expr) : expr := Dg (dx x) e.
 
 Definition grad (n : nat) (e : expr) : list expr := map (fun i => D i e) (seq 0 n).
 
@@ -91,7 +96,7 @@ Fixpoint lconst (e : expr) : bool :=
   | Cst _ | CPi | Floor _ => true
   | Add a b | Sub a b | Mul a b | Div a b => lconst a && lconst b
   | Neg a => lconst a
-  | Ite a b x y => lconst a && lconst b && lconst x && lconst y
+  | Ite _ _ x y => lconst x && lconst y     (* given a stable condition, which `dom` asks for *)
   | _ => false
   end.
 
@@ -159,6 +164,41 @@ Definition hard (c : cond) : bool := match c with CNe _ _ | CNonInt _ => false |
 
 (* the report Coq computes for one traced objective: gradient terms and the side conditions *)
 Definition report (n : nat) (e : expr) : list expr * list cond := (grad n e, conds e).
+
+(* ---------------------------------------------------------------- straight-line programs (sharing) *)
+(* A traced objective is a DAG; it is emitted as a list of instructions.  With n inputs (variables 0..n-1),
+   instruction j defines variable n+j and may use the variables below it.  Forward-mode differentiation gives
+   every variable i < M a tangent variable i+M: the harness seeds the tangents of the inputs (1 for the input
+   differentiated against, 0 otherwise) and evaluates value and tangent of every instruction in turn. *)
+Fixpoint bounded (k : nat) (e : expr) : bool :=
+  match e with
+  | Var i => i <? k
+  | Cst _ | CPi => true
+  | Add a b | Sub a b | Mul a b | Div a b | Atan2 a b => bounded k a && bounded k b
+  | Neg a | Pow a _ | Sqrt a | Sin a | Cos a | Exp a | Ln a | Rpw a _ | Abs a | Floor a => bounded k a
+  | Ite a b x y => bounded k a && bounded k b && bounded k x && bounded k y
+  end.
+Definition dvk (k M : nat) (i : nat) : expr := if i <? k then Var (i + M) else Cst 0.
+Fixpoint run (p : list expr) (k : nat) (r : envT) : envT :=
+  match p with [] => r | e :: q => run q (S k) (upd r k (eval e r)) end.
+Fixpoint runT (M : nat) (p : list expr) (k : nat) (r : envT) : envT :=
+  match p with
+  | [] => r
+  | e :: q => runT M q (S k) (upd (upd r k (eval e r)) (k + M) (eval (Dg (dvk k M) e) r))
+  end.
+Fixpoint wf (p : list expr) (k : nat) : bool :=
+  match p with [] => true | e :: q => bounded k e && wf q (S k) end.
+(* every instruction is evaluated inside its smooth domain (in the environment the tangent run builds) *)
+Fixpoint pdomT (M : nat) (p : list expr) (k : nat) (r : envT) : Prop :=
+  match p with
+  | [] => True
+  | e :: q => mdom e r /\ pdomT M q (S k) (upd (upd r k (eval e r)) (k + M) (eval (Dg (dvk k M) e) r))
+  end.
+Definition seed (M x : nat) (r : envT) : envT :=
+  fun i => if i <? M then r i else if Nat.eqb i (x + M) then 1 else 0.
+(* what Coq prints for a traced program: per instruction its tangent expression and its side conditions *)
+Fixpoint reportP (M : nat) (p : list expr) (k : nat) : list (expr * list cond) :=
+  match p with [] => [] | e :: q => (Dg (dvk k M) e, conds e) :: reportP M q (S k) end.
 
 (* ---------------------------------------------------------------- exact evaluation of the rational fragment *)
 Definition obind2 (f : Q -> Q -> option Q) (a b : option Q) : option Q :=
